@@ -4,6 +4,7 @@ import flowpaths.abstractpathmodeldag as pathmodel
 import flowpaths.utils as utils
 import flowpaths.nodeexpandeddigraph as nedg
 import copy
+import math
 
 
 class kMinPathError(pathmodel.AbstractPathModelDAG):
@@ -253,6 +254,12 @@ class kMinPathError(pathmodel.AbstractPathModelDAG):
         if len(self.path_length_ranges) != len(self.path_length_factors):
             utils.logger.error(f"{__name__}: The number of path length ranges must be equal to the number of error scale factors.")
             raise ValueError("The number of path length ranges must be equal to the number of error scale factors.")
+        # A path whose length factor is below 1 needs a slack larger than the error it has to absorb (up to w_max / factor)
+        self.slack_max = self.w_max
+        self.scaled_slack_max = self.w_max
+        if len(self.path_length_factors) > 0 and min(self.path_length_factors) > 0:
+            self.slack_max = math.ceil(self.w_max / min(1, min(self.path_length_factors)))
+            self.scaled_slack_max = self.slack_max * max(self.path_length_factors)
         if len(self.path_length_factors) > 0 and self.weight_type == float:
             utils.logger.error(f"{__name__}: Error scale factors are only allowed for integer weights.")
             raise ValueError("Error scale factors are only allowed for integer weights.")
@@ -330,7 +337,7 @@ class kMinPathError(pathmodel.AbstractPathModelDAG):
             self.path_indexes,
             name_prefix="slack",
             lb=0,
-            ub=self.w_max,
+            ub=self.slack_max,
             var_type="integer" if self.weight_type == int else "continuous",
         )
         
@@ -341,7 +348,7 @@ class kMinPathError(pathmodel.AbstractPathModelDAG):
             self.edge_indexes,
             name_prefix="gamma",
             lb=0,
-            ub=self.w_max,
+            ub=self.scaled_slack_max,
             var_type="continuous",
         )
 
@@ -371,7 +378,7 @@ class kMinPathError(pathmodel.AbstractPathModelDAG):
                 self.path_indexes,
                 name_prefix="scaled_slack",
                 lb=0,
-                ub=self.w_max * max(self.path_length_factors),
+                ub=self.scaled_slack_max,
                 var_type="continuous",
             )
 
@@ -382,7 +389,7 @@ class kMinPathError(pathmodel.AbstractPathModelDAG):
                     continuous_var=self.slack_factors_vars[i],
                     product_var=self.scaled_slack_vars[i],
                     lb=0,
-                    ub=self.w_max * max(self.path_length_factors),
+                    ub=max(self.slack_max, self.scaled_slack_max),
                     name=f"scaled_slack_i{i}",
                 )
                         
@@ -438,7 +445,7 @@ class kMinPathError(pathmodel.AbstractPathModelDAG):
                         continuous_var=slack_var,
                         product_var=self.gamma_vars[(u, v, i)],
                         lb=0,
-                        ub=self.w_max,
+                        ub=self.scaled_slack_max,
                         name=f"12_u={u}_v={v}_i={i}",
                     )
 
@@ -475,7 +482,7 @@ class kMinPathError(pathmodel.AbstractPathModelDAG):
             self.path_indexes,
             name_prefix="slack",
             lb=0,
-            ub=self.w_max,
+            ub=self.slack_max,
             var_type="integer" if self.weight_type == int else "continuous",
         )
         
@@ -486,7 +493,7 @@ class kMinPathError(pathmodel.AbstractPathModelDAG):
             self.edge_indexes,
             name_prefix="gamma",
             lb=0,
-            ub=self.w_max,
+            ub=self.scaled_slack_max,
             var_type="continuous",
         )
 
@@ -516,7 +523,7 @@ class kMinPathError(pathmodel.AbstractPathModelDAG):
                 self.path_indexes,
                 name_prefix="scaled_slack",
                 lb=0,
-                ub=self.w_max * max(self.path_length_factors),
+                ub=self.scaled_slack_max,
                 var_type="continuous",
             )
 
@@ -527,7 +534,7 @@ class kMinPathError(pathmodel.AbstractPathModelDAG):
                     continuous_var=self.slack_factors_vars[i],
                     product_var=self.scaled_slack_vars[i],
                     lb=0,
-                    ub=self.w_max * max(self.path_length_factors),
+                    ub=max(self.slack_max, self.scaled_slack_max),
                     name=f"scaled_slack_i{i}",
                 )
                         
@@ -550,7 +557,7 @@ class kMinPathError(pathmodel.AbstractPathModelDAG):
                     continuous_var=slack_var,
                     product_var=self.gamma_vars[(u, v, i)],
                     lb=0,
-                    ub=self.w_max,
+                    ub=self.scaled_slack_max,
                     name=f"12_u={u}_v={v}_i={i}",
                 )
 
